@@ -1,5 +1,6 @@
 """C13 - evaluation is free of side effects on the caller's tensors and on the model."""
 import copy
+import json
 
 import numpy as np
 import torch
@@ -59,6 +60,7 @@ def _case(draw):
     c["k"] = draw(st.sampled_from([1, 1, 2, 3]))
     c["rows"] = draw(st.integers(1, 4))
     c["seed"] = draw(st.integers(0, 10 ** 6))
+    c["precise"] = draw(st.sampled_from([False, False, True]))      # double-precision models and inputs as well (x.double() is x itself there)
     return c
 
 
@@ -112,7 +114,7 @@ def run_case(case):
     from nflows.flows import Flow
 
     res = CaseResult()
-    with dtype_mode(False):
+    with dtype_mode(bool(case.get("precise", False))):
         torch.manual_seed(case["seed"])
         b = zoo.instantiate(case)
         ctxk = case.get("ctx")
@@ -317,8 +319,10 @@ def run_case(case):
                 leaf = k.split(".")[-1]
                 if leaf in ALLOWED_TRAIN:
                     continue
-                if leaf in ("log_scale", "shift", "initialized") and not bool(sd0[k.rsplit(".", 1)[0] + ".initialized" if "." in k else "initialized"]):
-                    continue   # ActNorm's documented one-off data-dependent initialisation
+                if leaf in ("log_scale", "shift", "initialized") and not bool(sd0[k.rsplit(".", 1)[0] + ".initialized" if "." in k else "initialized"]) \
+                        and (any(mm in ("forward", "log_prob", "noise") for mm in methods) or '"inverse"' in json.dumps(case.get("spec", {}))):
+                    # (inside an Inverse wrapper the layer's forward runs when the wrapper's inverse is called)
+                    continue   # ActNorm's documented one-off data-dependent initialisation - on a training-mode FORWARD pass only
                 bad.append(k)
             if bad:
                 res.fail("state_changed_in_train", site, "training-mode calls %s changed %s (only normalisation statistics may change)" % (methods, bad[:4]),
